@@ -106,7 +106,8 @@ def attitude_action(B):
             B.vc('pose_transform.attitude.R_times_attitude_is_a_proper_rotation.rows[%d,%d]' % (i, j), app('=', dot(MG[i], MG[j]), '1.0' if i == j else '0.0'), hyp, functions=['pose_transform'], timeout=120)
     B.vc('pose_transform.attitude.R_times_attitude_is_a_proper_rotation.det', app('=', det3(MG), '1.0'), hyp, functions=['pose_transform'], timeout=180)
     # (3)
-    c10.matrix_route(B, c10.make_norm_axioms(B), pre='pose_transform.attitude.')
+    # 'attitude away from gimbal lock by 1e-3 rad': |sin(pitch)| <= cos(1e-3) = 0.99999950000004...; the rational bound 0.9999995 is used
+    c10.matrix_route(B, c10.make_norm_axioms(B), pre='pose_transform.attitude.', bound='0.9999995')
 
 
 def pose_action(B):
